@@ -74,6 +74,8 @@ func goType(e ast.Expr) string {
 			return "mstate?"
 		case "Goal":
 			return "sgoal"
+		case "func(*ast.SExpr) Goal":
+			return "fgoal"
 		}
 		fail("type outside the subset: %s", src(e))
 	}
@@ -148,6 +150,8 @@ func coqType(t string) string {
 		return "(option state)"
 	case "sgoal":
 		return "sgoal"
+	case "fgoal":
+		return "(term -> sgoal)"
 	case "mstate":
 		return "state"
 	}
@@ -300,12 +304,26 @@ func (c *ctx) expr(e ast.Expr, want string) ex {
 			if want == "Z" {
 				return ex{"(" + e.Value + ")%Z", true, "Z"}
 			}
+			if want == "N" {
+				return ex{"(" + e.Value + ")%N", true, "N"}
+			}
 			return ex{e.Value + "%nat", true, "nat"}
 		}
 	case *ast.UnaryExpr:
 		if e.Op == token.NOT {
 			x := c.expr(e.X, "bool")
 			return c.seq([]ex{x}, func(n []string) ex { return ex{"negb " + n[0], true, "bool"} })
+		}
+		if e.Op == token.AND && dialect == "stream" { // &State{a, b}
+			if cl, ok := e.X.(*ast.CompositeLit); ok && src(cl.Type) == "State" && len(cl.Elts) == 2 {
+				if _, kv := cl.Elts[0].(*ast.KeyValueExpr); !kv {
+					a := c.expr(cl.Elts[0], "subst")
+					b := c.expr(cl.Elts[1], "N")
+					if a.ty == "subst" && b.ty == "N" {
+						return c.seq([]ex{a, b}, func(n []string) ex { return ex{"Some (mkSt " + n[0] + " " + n[1] + ")", true, "mstate?"} })
+					}
+				}
+			}
 		}
 		if e.Op == token.AND { // &State{Substitutions: a, Counter: b}
 			if cl, ok := e.X.(*ast.CompositeLit); ok && src(cl.Type) == "State" && len(cl.Elts) == 2 && dialect == "micro" {
@@ -418,7 +436,13 @@ func (c *ctx) expr(e ast.Expr, want string) ex {
 			}
 			return c.seq([]ex{a, b}, func(n []string) ex { return ex{wrap(eq + " " + n[0] + " " + n[1]), true, "bool"} })
 		case token.ADD, token.SUB:
-			if a0 := c.expr(e.X, want); a0.ty == "Z" {
+			if a0 := c.expr(e.X, want); a0.ty == "N" && e.Op == token.ADD {
+				b0 := c.expr(e.Y, "N")
+				if b0.ty != "N" {
+					fail("%s: + on N and %s", c.f.name, b0.ty)
+				}
+				return c.seq([]ex{a0, b0}, func(n []string) ex { return ex{"(" + n[0] + " + " + n[1] + ")%N", true, "N"} })
+			} else if a0.ty == "Z" {
 				b0 := c.expr(e.Y, "Z")
 				if b0.ty != "Z" {
 					fail("%s: %s on Z and %s", c.f.name, e.Op, b0.ty)
@@ -492,6 +516,12 @@ func (c *ctx) expr(e ast.Expr, want string) ex {
 		x := c.expr(e.X, "")
 		if dialect == "stream" && x.ty == "stream" && e.Sel.Name == "state" && x.pure {
 			return ex{"cell_state (" + x.code + ")", false, "mstate?"}
+		}
+		if dialect == "stream" && x.ty == "mstate?" && x.pure && e.Sel.Name == "Counter" {
+			return ex{"st_counter (" + x.code + ")", false, "N"}
+		}
+		if dialect == "stream" && x.ty == "mstate?" && x.pure && e.Sel.Name == "Substitutions" {
+			return ex{"st_subst (" + x.code + ")", false, "subst"}
 		}
 		switch x.ty + "." + e.Sel.Name {
 		case "mstate.Substitutions":
@@ -725,6 +755,16 @@ func (c *ctx) miniCall(e *ast.CallExpr) (ex, bool) {
 // (the model is defunctionalised: a suspension is a thunk TMplus / TBind over the thunk of the immature cell X; the lazily
 // computed tail of a mature cell is modelled as the computed tail)
 func (c *ctx) streamClosureCall(e *ast.CallExpr) (ex, bool) {
+	// f(v)(ss) with f a function from terms to goals
+	if inner, ok := e.Fun.(*ast.CallExpr); ok && len(e.Args) == 1 && len(inner.Args) == 1 {
+		if fid, ok := inner.Fun.(*ast.Ident); ok && c.vars[fid.Name] == "fgoal" {
+			v := c.expr(inner.Args[0], "sexpr")
+			a := c.expr(e.Args[0], "mstate?")
+			if v.ty == "sexpr" && a.ty == "mstate?" && v.pure && a.pure {
+				return ex{fmt.Sprintf("app_goal (%s (%s)) (%s)", c.name(fid.Name), v.code, a.code), false, "stream"}, true
+			}
+		}
+	}
 	id, ok := e.Fun.(*ast.Ident)
 	if !ok {
 		return ex{}, false
@@ -736,6 +776,19 @@ func (c *ctx) streamClosureCall(e *ast.CallExpr) (ex, bool) {
 			break
 		}
 		fl, ok := e.Args[0].(*ast.FuncLit)
+		if ok && isThunkType(fl) && len(fl.Body.List) == 1 {
+			// Suspension(func() *StreamOfStates { return g(s) }) = the suspended goal g at s (the model's thunk TGoal)
+			if rs, ok := fl.Body.List[0].(*ast.ReturnStmt); ok && len(rs.Results) == 1 {
+				if call, ok := rs.Results[0].(*ast.CallExpr); ok && len(call.Args) == 1 {
+					if gid, ok := call.Fun.(*ast.Ident); ok && c.vars[gid.Name] == "sgoal" {
+						a := c.expr(call.Args[0], "mstate?")
+						if a.ty == "mstate?" && a.pure {
+							return ex{fmt.Sprintf("susp_goal %s (%s)", c.name(gid.Name), a.code), false, "stream"}, true
+						}
+					}
+				}
+			}
+		}
 		if !ok || !isThunkType(fl) || len(fl.Body.List) != 2 {
 			fail("%s: suspension outside the subset: %s", c.f.name, src(e))
 		}
@@ -797,6 +850,12 @@ func (c *ctx) streamClosureCall(e *ast.CallExpr) (ex, bool) {
 		}
 		tn := c.tmp()
 		return ex{fmt.Sprintf("bind (%s) (fun %s => new_stream (%s) %s)", ret(t), tn, a.code, tn), false, "stream"}, true
+	}
+	if id.Name == "Var" && len(e.Args) == 1 {
+		x := c.expr(e.Args[0], "N")
+		if x.ty == "N" {
+			return c.seq([]ex{x}, func(n []string) ex { return ex{"TVar " + n[0], true, "sexpr"} }), true
+		}
 	}
 	// g(car)
 	if t, ok := c.vars[id.Name]; ok && t == "sgoal" && len(e.Args) == 1 {
@@ -1394,7 +1453,7 @@ func main() {
 	}
 	if len(os.Args) == 4 && os.Args[1] == "-stream" {
 		dialect, prefix = "stream", "gs_"
-		order = []string{"takeStream", "Mplus", "Bind", "Disj", "Conj"}
+		order = []string{"takeStream", "Mplus", "Bind", "Disj", "Conj", "Zzz", "CallFresh"}
 		os.Args = append(os.Args[:1], os.Args[2:]...)
 	}
 	if len(os.Args) != 3 {
@@ -1406,7 +1465,7 @@ func main() {
 		files = []string{"gomini/unify.go"}
 	}
 	if dialect == "stream" {
-		files = []string{"micro/stream.go", "micro/disj.go", "micro/conj.go"}
+		files = []string{"micro/stream.go", "micro/disj.go", "micro/conj.go", "micro/fresh.go"}
 	}
 	if dialect == "mini" {
 		files = []string{"mini/disj.go", "mini/conj.go", "mini/conde.go"}
